@@ -150,10 +150,10 @@ def run(res, f, tier):
             relevant.append((c, local, drops))
     # mandatory anchors: the operations the property names must be in the graph at all
     names = set(x["path"] for x in nodes)
-    for anchor in ("<expr::Expr as std::clone::Clone>::clone", "<expr::Expr as std::cmp::PartialEq>::eq", "<expr::Expr as std::fmt::Display>::fmt",
-                   "<expr::Expr as std::fmt::Debug>::fmt"):
-        if anchor not in names:
-            raise Inconclusive("operation %s is missing from the instance graph" % anchor)
+    for tr_, me_ in (("std::clone::Clone", "clone"), ("std::cmp::PartialEq", "eq"), ("std::fmt::Display", "fmt"), ("std::fmt::Debug", "fmt")):
+        anchor = f.impl_method(tr_, "expr::Expr", me_)
+        if not anchor or anchor not in names:
+            raise Inconclusive("operation <expr::Expr as %s>::%s is missing from the instance graph" % (tr_, me_))
     if not any(x["kind"] == "DropGlue" and x.get("drop_ty") == "expr::Expr" for x in nodes):
         raise Inconclusive("drop glue of Expr is missing from the instance graph")
     for pc in parser_cycles:
@@ -170,7 +170,15 @@ def run(res, f, tier):
             # extracted or inlined inside the cycle); SCCs are disjoint, so the name identifies the cycle
             cs_ = set(c)
             entered = sorted(set(nodes[i]["path"] for i in c if nodes[i]["local"] and any(a_ not in cs_ for a_ in radj_all.get(i, []))))
-            key = "C19|cycle|%s" % (entered[0] if entered else local[0])
+            def canon(pth):
+                # a trait method is named after (type, trait, method), not after the module its impl block sits in
+                b_ = f.bodies.get(pth)
+                im_ = (b_ or {}).get("impl") or {}
+                if b_ and im_.get("trait") and not b_.get("parent"):
+                    return "<%s as %s>::%s" % (im_["self_s"], im_["trait"], b_["name"])
+                return pth
+            entered = sorted(set(canon(x) for x in entered))
+            key = "C19|cycle|%s" % (entered[0] if entered else canon(local[0]))
             what = "unbounded recursion over the expression / value tree through %s" % ", ".join(local[:5])
         else:
             key = "C19|cycle|drop:%s" % drops[0]
